@@ -81,6 +81,8 @@ Equiv(class, res, exp) ==
 SrcOk(step, pool) ==
     \A k \in DOMAIN step.src : step.src[k] \in DOMAIN pool /\ IsMesh(pool[step.src[k]]) /\ WellFormed(pool[step.src[k]])
 
+WeldBudget(data, p10) == \A i \in DOMAIN data : \A c \in DOMAIN data[i] :
+                              data[i][c] <= 1073741824 \div p10 /\ data[i][c] >= 0 - (1073741824 \div p10)
 SmallInt(data, bound) == \A i \in DOMAIN data : \A c \in DOMAIN data[i] : data[i][c] <= bound * Q /\ data[i][c] >= 0 - bound * Q
 
 \* Is the step inside the contract's quantifier (well-formed sources, admissible arguments)?
@@ -114,7 +116,9 @@ Judgeable(step, pool) ==
        /\ CASE op = "CenterAttr" -> HasAttr(a, 3, g.id) => CenterExact(a, g.id)
          [] op = "RemoveNullFaces" ->
                  HasAttr(a, 3, g.id) => (OnIntLattice(AttrData(a, 3, g.id)) /\ SmallInt(AttrData(a, 3, g.id), 1000))
-         [] op = "Weld" -> HasAttr(a, 3, g.id) => SmallInt(AttrData(a, 3, g.id), 1000)
+         \* the rounding cell value * p10 must be computable in 32 bits: |value * Q| * p10 <= 2^30, i.e. coordinates
+         \* up to 2^20 at decimal place 0 (the magnitude ladder of checks/meshpool.py), about 1000 at decimal place 3
+         [] op = "Weld" -> HasAttr(a, 3, g.id) => WeldBudget(AttrData(a, 3, g.id), g.p10)
          [] op = "Normalize" -> NormalizeJudgeable(a, g.id)
          [] op \in {"FlatNormals", "SmoothNormals"} -> NormalsJudgeable(a) /\ AttrLen(a) > 0
          [] op = "Laplacian" -> LaplacianJudgeable(a, g.id) /\ a.topo = "triangle" /\ AttrLen(a) > 0
